@@ -40,7 +40,12 @@ func genC19(t *rapid.T) CaseC19 {
 			c.JDocs = append(c.JDocs, genJSONObj(t, 2))
 		} else {
 			g := XGen{Opts: defaultOpts(), MixedText: true, Namespaces: true}
-			c.XDocs = append(c.XDocs, g.Elem(t, 2))
+			d := g.Elem(t, 2)
+			if rapid.IntRange(0, 5).Draw(t, "reservedroot") == 0 {
+				// a document whose own root has one of the names the encoders use as default tags
+				d.Prefix, d.Local = "", rapid.SampledFrom([]string{"doc", "doc", "element", "object"}).Draw(t, "rootname")
+			}
+			c.XDocs = append(c.XDocs, d)
 		}
 	}
 	c.Indent = rapid.Bool().Draw(t, "indent")
